@@ -49,11 +49,7 @@ func TestGvcReplay(t *testing.T) {
 			}
 		}
 	case "(ImportDecl).CoqDecl":
-		declPool := pool
-		if os.Getenv("GVC_REPLAY_KNOWN") != "" {
-			// single-component import paths: a recorded known finding, only replayed for itself
-			declPool = append(append([]string(nil), pool...), "sort")
-		}
+		declPool := append(append([]string(nil), pool...), "sort", "kv")
 		for _, p := range declPool {
 			logical := strings.ReplaceAll(gvcMap(p), "/", ".")
 			if got, want := (ImportDecl{Path: p}).CoqDecl(), "From Goose Require "+logical+"."; got != want {
